@@ -7,6 +7,7 @@ import EV.Drv.Daemon
 import EV.Drv.TxCodec
 import EV.Drv.HeaderCache
 import EV.Drv.Rpc
+import EV.Drv.System
 
 /-!
 `evdrv <suite>`: reads one operation per line on stdin, applies it to the Lean model of that
@@ -44,4 +45,5 @@ def main (args : List String) : IO UInt32 := do
   | ["txcodec-orig"] => Drv.loop stdin stdout (Drv.TxCodecD.stepLine 1) Drv.TxCodecD.init; return 0
   | ["headercache"] => Drv.loop stdin stdout Drv.HeaderCacheD.stepLine {}; return 0
   | ["rpc"] => Drv.loop stdin stdout Drv.RpcD.stepLine {}; return 0
+  | ["system"] => Drv.loop stdin stdout Drv.SystemD.stepLine {}; return 0
   | _ => IO.eprintln "usage: evdrv <suite>"; return 2
